@@ -28,6 +28,9 @@ structure Facts where
   recursiveCalls : Nat
   depthZeroTests : Nat
   topLevelUsesLimit : Bool
+  -- C05: allocations sized by a wire length / count come after the size check of their case clause
+  allocAfterSizeCheck : Bool
+  allocSitesSized : Nat
   -- C08 / C07
   createLocksRechecksBuildsPublishes : Bool
   getIsReadOnly : Bool
@@ -69,6 +72,9 @@ def lockDiscipline (F : Facts) : Bool :=
 
 /-- C04: `Append(buf[:0:len(buf)], v)` and `len(ret) > len(buf)` is the error test -/
 def bufferContract (F : Facts) : Bool := F.encodeCapsAtLen && F.encodeChecksLen
+
+/-- C05: every wire-sized allocation of the decoder is dominated by its size check -/
+def allocationDiscipline (F : Facts) : Bool := F.allocAfterSizeCheck && F.allocSitesSized == 6
 
 def steadyStateAllocFree (F : Facts) : Bool := F.escapeAnalysisRan && F.hotPathHeapSites == 0
 end Facts
